@@ -1561,6 +1561,14 @@ def _closed(oc):
         raise ValueError('not sure how to parse boundary %s'%oc)
     
 
+def _bound(b):
+    """
+    a bound that is the missing date - pd.NaT, np.datetime64('NaT'), 'NaT' - is a missing bound, like None: unbounded
+    """
+    if isinstance(b, list):
+        return [_bound(i) for i in b]
+    return None if b is pd.NaT or (isinstance(b, np.datetime64) and np.isnat(b)) or (is_str(b) and b == 'NaT') else b
+
 def _df_slice(df, lb = None, ub = None, openclose = '[)'):
     """    
     Performs a one-time slice of the dataframe. Does not stich slices together
@@ -1676,6 +1684,7 @@ def df_slice(df, lb = None, ub = None, openclose = '(]', n = 1):
     """
     if isinstance(lb, tuple) and len(lb) == 2 and ub is None:
         lb, ub = lb
+    lb, ub = _bound(lb), _bound(ub)
     if isinstance(ub, datetime.time) and isinstance(lb, datetime.time) and lb>ub:
         pre  = df_slice(df, None, ub, openclose)
         post = df_slice(df, lb, None, openclose)
@@ -1765,6 +1774,7 @@ def df_unslice(df, ub):
 
     """
     n = df.shape[1] if is_df(df) else 1
+    ub = _bound(ub)
     increasing = _is_non_decreasing(ub)
     if not increasing: ## df_slice reads a decreasing list of bounds backwards, so do we
         ub = ub[::-1]
